@@ -141,6 +141,15 @@ CHECKS = {
         "build ids are supplied through the loader's own buildidCache.",
    technique="bounded symbolic execution of go/ssa + SMT with an axiomatised collision-free hash, native replay",
    design="3/C04"),
+ "C08": dict(
+   level="model_checking",
+   text="Kernel of the pre-filter: (a) entry node kinds — 22 patterns (Or of wrapped alternatives, Not, nested Or, node-less bindings, lists, repeated names) are parsed by the real parser natively (EntryNodes taken from it), the real "
+        "matcher runs in the engine on 16 expression shapes with symbolic leaves, and whenever it accepts a node the node's kind must be among the pattern's entry nodes; (b) symbol names — symbolToIndexSymbol is executed on "
+        "fully symbolic names path.Ident / (path.Type).Ident / (*path.Type).Ident over 5 path shapes with dots and slashes and must recover path, type and identifier.",
+   note="Not covered: the candidate enumeration through the type index (code.Matches, CouldMatchAny, typeindex.Calls: parenthesised calls, generic instantiations, method values, renamed/dot imports) — it needs type-checked packages "
+        "(seed C08-3 is missed for that reason); patterns with Symbol/Object nodes; statement-level nodes. Matches are compared after unwrapping the transparent wrappers Match itself unwraps.",
+   technique="bounded symbolic execution of go/ssa (reflect modelled) + SMT, native replay",
+   design="3/C08"),
 }
 
 NA = {
